@@ -21,7 +21,7 @@ pub fn budget(prop: &str, tier: &str) -> Budget {
     let (q, t): (u64, u64) = match prop {
         "C04" => (800, 30_000),
         "C10" | "C19" => (1_500, 60_000),
-        "C11" => (1_600, 80_000),
+        "C11" => (6_000, 300_000),
         "C20" => (3_000, 200_000),
         "C15" | "C17" | "C18" => (2_000, 100_000),
         "C01" | "C02" | "C09" => (3_000, 200_000),
@@ -256,7 +256,7 @@ pub fn check(prop: &str, tier: &str) -> i32 {
 
 fn worker_loop(prop: &str, first_seed: u64, runs: u64, per_seed: Duration, next: Arc<AtomicU64>, stop: Arc<AtomicBool>, tx: mpsc::Sender<(u64, Result<Value, String>)>) {
     let spawn = || {
-        let mut child = Command::new(exe()).arg("worker").arg(prop).stdin(Stdio::piped()).stdout(Stdio::piped()).stderr(Stdio::null()).spawn().expect("spawn worker");
+        let mut child = Command::new(exe()).arg("worker").arg(prop).stdin(Stdio::piped()).stdout(Stdio::piped()).stderr(if std::env::var("VERIF_WORKER_STDERR").is_ok() { Stdio::inherit() } else { Stdio::null() }).spawn().expect("spawn worker");
         let stdout = child.stdout.take().unwrap();
         let (ltx, lrx) = mpsc::channel::<String>();
         std::thread::spawn(move || {
@@ -482,7 +482,7 @@ pub fn sanitize(s: &str) -> String {
 fn components() -> Value {
     json!({
         "real": ["server crate: System, streams/topics/partitions/segments, log+index readers/writers, batch accumulator, message cache, deduplicator, FileState journal + SystemState replay, permissioner, users/PATs, client manager, consumer groups, binary command decoding + all binary handlers, background executors' execute()", "iggy SDK: request encoders, response decoders, TcpClient framing/state machine; in runs of the HTTP arm (see probes http_root_login / request_via_http) also HttpClient (paths, JSON, token handling); in C20 IggyClient/IggyProducer/IggyConsumer", "server HTTP API in runs of the HTTP arm: the axum routers, extractors, handlers, JWT manager and middleware, called in-process (no socket)", "std::fs system calls on tmpfs"],
-        "stubbed": ["tokio scheduler / blocking pool / tokio::fs (replaced by the seeded single-threaded executor and an inline file shim with fault and mutation hooks)", "TCP (in-memory duplex pipe with seeded capacity)", "interval senders of background jobs (the simulator calls the executors)", "TLS/QUIC listeners not run; HTTP has no listener (requests are handed to the router in-process; CORS, metrics and the expired-token cleaner task are left out)", "lock acquisitions of IggySharedMut / SharedSystem are seeded scheduling points (hook H10)", "OS randomness left real (never branches control flow)"]
+        "stubbed": ["tokio scheduler / blocking pool / tokio::fs (replaced by the seeded single-threaded executor and an inline file shim with fault and mutation hooks)", "TCP (in-memory duplex pipe with seeded capacity)", "process allocator (the server's mimalloc is switched off through its own `disable-mimalloc` feature; the system allocator runs behind a probe that notes the largest single request)", "interval senders of background jobs (the simulator calls the executors)", "TLS/QUIC listeners not run; HTTP has no listener (requests are handed to the router in-process; CORS, metrics and the expired-token cleaner task are left out)", "lock acquisitions of IggySharedMut / SharedSystem are seeded scheduling points (hook H10)", "OS randomness left real (never branches control flow)"]
     })
 }
 
@@ -517,7 +517,7 @@ pub fn determinism_proof(arg: &str) -> i32 {
     };
     let mut jobs: Vec<(String, u64, u64)> = Vec::new();
     for (i, prop) in props.iter().enumerate() {
-        let n = if *prop == "C04" || *prop == "C11" { (per_prop / 10).max(2) } else { per_prop };
+        let n = if *prop == "C04" { (per_prop / 10).max(2) } else { per_prop };
         // split every property's seeds over several processes
         for part in 0..4u64 {
             jobs.push((prop.to_string(), 7000 + i as u64 * 10 + part, (n / 4).max(1)));
